@@ -541,6 +541,15 @@ def run(ctx):
         for n in (3, 99, 100, 101, 200):
             for off in (-14, -17, -1):
                 jobs.append(("rt", fmt, n, off, "generic", False, "string"))
+    # every atom count of an interval (a size-dependent branch of a reader or writer has nowhere to hide below the bound):
+    # default coordinates and route; the thorough tier goes to the V2000 limit of 999 atoms and adds the bonded form
+    sweep_to = 999 if ctx.thorough else 260
+    for fmt in ("xyz", "sdf"):
+        for n in range(1, sweep_to + 1):
+            if n not in COUNTS:
+                jobs.append(("rt", fmt, n, 0, "generic", False, "string"))
+                if ctx.thorough and n <= 200:      # the quantifier's range; beyond ~245 atoms of this lattice the perceived bonds exceed the 3-digit V2000 bond count
+                    jobs.append(("rt", fmt, n, 0, "generic", True, "file"))
     for z in range(1, 104):
         jobs.append(("xyzread", z))
     for k in (1, 2, 3):
@@ -558,7 +567,8 @@ def run(ctx):
                 "string/file routes%s; molecules read from xyz/sdf (with and without the kept source text) and then moved in 3 ways before being written; XYZ reading of all 103 symbols x 3 letter cases x 4 separator styles and x 6 comment lines (empty, blank, number-like, atom-like) x {hand-written, written by the library}; SDF texts with 1-3 records from the "
                 "writer and from the column reference; every SDF text checked against the V2000 column layout; states = distinct molecule "
                 "configurations" % (COUNTS, COORD_KINDS, "" if ctx.thorough else " (non-default offsets/file route under a one-deviation bound)"))
-    ctx.bounds = {"counts": COUNTS, "coordinate_kinds": COORD_KINDS, "jobs": len(jobs)}
+    ctx.rule += "; every atom count 1..%d with default coordinates (string route%s)" % (sweep_to, "; bonded + file route up to 200" if ctx.thorough else "")
+    ctx.bounds = {"counts": COUNTS, "count_sweep_to": sweep_to, "coordinate_kinds": COORD_KINDS, "jobs": len(jobs)}
     ctx.assumptions = ["XYZ precision 5e-13 (12 decimals), SDF precision 5e-5 (4 decimals); coordinates within +-9999.9999 (SDF field width)",
                        "the SDF layout oracle is the CTfile V2000 specification as encoded in mc/ref/sdfcols.py"]
     ctx.pmap(worker, chunked(jobs, max(1, len(jobs) // 64)))
